@@ -1017,6 +1017,39 @@ theorem limFrame (hc : ClockOk W) (E : Engine σ) (hE : E.FailStop) (D : Int) (l
   · intro s n h; exact interp_failstop coreP coreW hr hw _ (hE.1 s.e n) s h
   · intro s d h; exact interp_failstop coreP coreW hr hw _ (hE.2 s.e d) s h
 
+/-- with a fail-stop engine no callback failure stays stashed across calls -/
+theorem noStashFrame (W : World ω) (E : Engine σ) (hE : E.FailStop) :
+    HFrame W E (fun s : St σ ω => s.g.pendingError = none) (fun _ => True) := by
+  have hr : ∀ (s : St σ ω) n, s.g.pendingError = none →
+      (∀ bs s', bioRead W s n = (.ok bs, s') → s'.g.pendingError = none) ∧
+      (∀ e s', bioRead W s n = (.exn e, s') → True) := by
+    intro s n h
+    refine ⟨?_, fun _ _ _ => trivial⟩
+    intro bs s' heq
+    have := (bioRead_budget (W := W) s n).1
+    rw [heq] at this
+    exact this.trans h
+  have hw : ∀ (s : St σ ω) bs, bs ≠ [] → s.g.pendingError = none →
+      (∀ m s', bioWrite W s bs = (.ok m, s') → s'.g.pendingError = none) ∧
+      (∀ e s', bioWrite W s bs = (.exn e, s') → True) := by
+    intro s bs _ h
+    refine ⟨?_, fun _ _ _ => trivial⟩
+    intro m s' heq
+    have := (bioWrite_budget (W := W) s bs).1
+    rw [heq] at this
+    exact this.trans h
+  refine ⟨?_, fun _ _ _ => trivial, fun s d h => h, ?_, ?_⟩
+  · intro s s' h _ _ hp
+    rcases hp with hp | hp
+    · exact hp.trans h
+    · exact hp
+  · intro s n h
+    exact interp_failstop (P := fun s : St σ ω => s.g.pendingError = none) (Wk := fun _ => True)
+      (fun h _ _ hp => hp.trans h) (fun _ _ _ => trivial) hr hw _ (hE.1 s.e n) s h
+  · intro s d h
+    exact interp_failstop (P := fun s : St σ ω => s.g.pendingError = none) (Wk := fun _ => True)
+      (fun h _ _ hp => hp.trans h) (fun _ _ _ => trivial) hr hw _ (hE.2 s.e d) s h
+
 /-! ### a scripted world that satisfies the clock assumptions by construction (for the examples) -/
 
 /-- scripted answers; when a list is exhausted: nothing ever becomes ready (a wait sits out its timeout),
